@@ -11,7 +11,7 @@ from driver import run_batch
 from wire import to_wire, from_wire, canon, exc_class
 from props.common import scale, depth_of, schema_tags, same
 
-THEOREMS = ["c09_hint", "c09_choose_eq_spec"]
+THEOREMS = ["c09_hint", "c09_choose_eq_spec", "c09_closure_branch", "c09_closure_union_level"]
 TARGETS = ["Properties.TablesCodec", "Properties.C09"]
 
 ROPTS = [{}, {"rnt": True}, {"rrn": True}, {"rnt": True, "rnto": True}, {"rrn": True, "rrno": True}]
